@@ -13,7 +13,7 @@ COMMON_NOTE = ("Trusted base: govc's SSA->SMT semantics (go/ssa of x/tools, Burs
                "library contracts (proto.Size uninterpreted, proto.Clone fresh deep copy, proto.Unmarshal/Marshal effects, slices.Sort sorted permutation, encoding/binary, fmt/Logger without effect); "
                "A-arith (slice windows <= 2^31, indexes < 2^62 where stated in #a-arith preconditions); environment assumptions appear as labelled preconditions "
                "(E-msg-wf, E-ready-contract, E-app-conf, E-leader-complete, E-snapshot-conf-valid) and are listed per function in the evidence file together with every "
-               "trusted contract (raft.switchToConfig, raft.appliedSnap, confchange.Restore, raft.hasUnappliedConfChanges, "
+               "trusted contract (raft.switchToConfig, raft.appliedSnap, confchange.Restore, "
                "assertConfStatesEquivalent, lockedRand.Intn, DescribeConfChange).")
 props = json.loads(subprocess.run(["/verif/bin/govc", "props"], capture_output=True, text=True, check=True).stdout)
 CLAIMED = {pid: dict(cat=v["Level"], ref=DESIGN_REF[pid], text=v["Explanation"], note=COMMON_NOTE) for pid, v in props.items()}
